@@ -103,6 +103,11 @@ loop:
 				continue loop
 			}
 		}
+		if after.Contains(innerRing[i]) {
+			// an inner ring node outside the old list that enters the new one
+			// takes the place of a replaced key above, do not list it twice
+			continue
+		}
 		result = append(result, innerRing[i])
 	}
 
